@@ -158,7 +158,7 @@ func c02Box(c *vf.Check) {
 
 // C03: local state and lexical scoping survive suspension.
 func C03(c *vf.Check) {
-	runFam(c, famSpec{id: "C03", fam: "scope", name: "F_scope", sizeQ: "3", sizeT: "4", tapeQ: "3", tapeT: "2", callsQ: 5, callsT: 6,
+	runFam(c, famSpec{id: "C03", fam: "scope", name: "F_scope", sizeQ: "3", sizeT: "3", tapeQ: "3", tapeT: "4", callsQ: 5, callsT: 6,
 		keys: fullKeys, lazyT: true,
 		rule:   "every program of F_scope up to MaxSize: shadowing declarations a := a + 10 in nested blocks and in if / switch / for initialisers, a++ (also as post statement), a closure f := func() { a += 100 } created before any yield and called after, effects and yields observing the variables in scope; x every tape; non-trivial as in C01",
 		assume: []string{"no closure captures a three-clause loop variable across iterations (the only place where go<=1.21 and go>=1.22 scoping differ)"}})
@@ -172,7 +172,7 @@ func C03(c *vf.Check) {
 
 // C05: YieldFrom splices the delegate's remaining elements, lazily and in order.
 func C05(c *vf.Check) {
-	runFam(c, famSpec{id: "C05", fam: "yf", name: "F_yf", sizeQ: "3", sizeT: "4", tapeQ: "3", tapeT: "2", callsQ: 6, callsT: 7,
+	runFam(c, famSpec{id: "C05", fam: "yf", name: "F_yf", sizeQ: "3", sizeT: "3", tapeQ: "3", tapeT: "5", callsQ: 6, callsT: 9,
 		keys: fullKeys, deleg: true, budget: 40,
 		rule:   "every main program of F_yf up to MaxSize over three delegates (two yields with an effect between; maybe-empty; recursive tree walk whose depth is bounded by the tape) with YieldFrom at every statement position including for-post, argument literal or variable; x every tape; every truncation is a prefix of the per-call observation (effects show the one-delegate-step-per-consumer-step lockstep and the single evaluation of the argument)",
 		assume: []string{"delegates are fresh instances created by the YieldFrom argument expression; partially consumed delegates are covered by C06"}})
@@ -180,7 +180,7 @@ func C05(c *vf.Check) {
 
 // C18: panics surface from the advance that ran the panicking statement.
 func C18(c *vf.Check) {
-	runFam(c, famSpec{id: "C18", fam: "panic", name: "F_panic", sizeQ: "3", sizeT: "4", tapeQ: "3", tapeT: "2", callsQ: 5, callsT: 6,
+	runFam(c, famSpec{id: "C18", fam: "panic", name: "F_panic", sizeQ: "3", sizeT: "3", tapeQ: "3", tapeT: "4", callsQ: 5, callsT: 6,
 		keys: fullKeys, lazyT: true,
 		rule:   "every program of the control-flow family with panic(\"boom\") at any statement position (programs without a panic statement are excluded) x every tape; the driver recovers around every MoveNext and records which call panicked with which value; values and effects delivered before must match; non-trivial as in C01",
 		assume: []string{"behaviour after the panic is unconstrained by the property: the history ends at the panicking call", "budget exhaustion (r.T / r.E beyond the event budget) is a second source of panics at arbitrary positions inside loops"}})
